@@ -393,6 +393,39 @@ def r7_rewrites_preserve_type(ctx, rule="C12.R7"):
                                "checker typed as %s is an %s at run time (accepted program, Type mismatch or a "
                                "wrong value when run)" % (impl["self_ty"].split("::")[-1].split("<")[0], variant,
                                                           r["variant"], bad, bad, r["variant"]))
+                # the literal may be made by a helper that is handed the qualifier (zero_value_literal(name.qualifier()))
+                for _b, t in mir.region_calls(body, region):
+                    g = prog.fns.get(t.get("res") or mir.callee_of(t))
+                    if g is None or g.crate != "rusty_linter" or g.kind != "fn" or not g.body.locals[0]["ty"].endswith("Expression"):
+                        continue
+                    gq = mir.enum_switches(prog, g.body, ot.TQ)
+                    if not gq:
+                        continue
+                    for gb, gblk in enumerate(g.body.blocks):
+                        if gblk.get("c"):
+                            continue
+                        for st in gblk["s"]:
+                            r = st.get("r", {})
+                            if st["k"] != "assign" or r.get("k") != "agg" or r.get("adt") != ot.EXPR or r.get("variant") not in LIT_OF.values():
+                                continue
+                            quals = set(ALLQ)
+                            for q in gq:
+                                inside = set()
+                                for qn, qt in q.arms.items():
+                                    if gb in mir.arm_region(g.body, q.bb, qt):
+                                        inside.add(qn)
+                                if q.otherwise is not None and gb in mir.arm_region(g.body, q.bb, q.otherwise):
+                                    inside |= set(q.wildcard_variants(prog))
+                                if inside:
+                                    quals &= inside
+                            bad = sorted(qn for qn in quals if LIT_OF[qn] != r["variant"])
+                            n += 1
+                            ctx.decide(not bad, rule, "%s:%s:%s->%s" % (rule, impl["self_ty"].split("::")[-1].split("<")[0], variant, r["variant"]),
+                                       g.loc, "Expression::%s is replaced by %s only where its qualifier is %s (in %s)"
+                                       % (variant, r["variant"], sorted(quals), g.name),
+                                       "%s (called by %s::visit_expression for an Expression::%s) builds an %s also when the type qualifier "
+                                       "is %s: the rewrite runs after the type checks, so an expression the checker typed as %s is an %s at "
+                                       "run time" % (g.name, impl["self_ty"].split("::")[-1].split("<")[0], variant, r["variant"], bad, bad, r["variant"]))
     ctx.require(rule, 1)
 
 
